@@ -168,7 +168,7 @@ static void run_xml(const uint8_t *bytes, size_t n, unsigned pol, size_t max_dep
 }
 
 static const uint8_t XML_ALPHA[10] = {'<', '>', '/', '?', '!', 'a', 'b', ' ', '=', '"'};
-static unsigned xml_strlen_max(void) { return v_thorough() ? 6 : 5; }
+static unsigned xml_strlen_max(void) { return v_thorough() ? 7 : 6; }
 static uint64_t xml_str_total(void) { return bee_strings_upto(10, xml_strlen_max()) * XP_N; }
 static void xml_str_eval(uint64_t idx, void *ctx) {
     (void)ctx;
@@ -181,18 +181,18 @@ static void xml_str_eval(uint64_t idx, void *ctx) {
 
 #define T(lbl, lit, dq, dt, aux) {lbl, (const uint8_t *)(lit), sizeof(lit) - 1, dq, dt, aux}
 static struct tmpl XML_T[] = {
-    T("preamble", "<?xml version=\"1.0\"?><a>b</a>", 1, 2, 0),
-    T("doctype+attr", "<!DOCTYPE a><a b=\"c\">d</a>", 1, 2, 0),
-    T("siblings", "<a><b>c</b><b/></a>", 1, 2, 0),
-    T("same-name-nested", "<a b=\"c\"><a>x</a></a>", 1, 2, 0),
-    T("prefix-name", "<a><ab></ab></a>", 1, 2, 0),
+    T("preamble", "<?xml version=\"1.0\"?><a>b</a>", 2, 2, 0),
+    T("doctype+attr", "<!DOCTYPE a><a b=\"c\">d</a>", 2, 2, 0),
+    T("siblings", "<a><b>c</b><b/></a>", 2, 2, 0),
+    T("same-name-nested", "<a b=\"c\"><a>x</a></a>", 2, 2, 0),
+    T("prefix-name", "<a><ab></ab></a>", 2, 2, 0),
     T("gt-in-text", "<a>1>2<b>3</b></a>", 2, 2, 0),
-    T("self-closing", "<a><b c=\"d\"/><e/></a>", 1, 2, 0),
+    T("self-closing", "<a><b c=\"d\"/><e/></a>", 2, 2, 0),
     T("tiny", "<a></a>", 2, 2, 0),
-    T("max-depth-2", "<a><b><c>x</c></b></a>", 1, 2, 2),
-    T("spaces", "<a  b = \"c\" ><b/></a >", 1, 2, 0),
-    T("attr-x10", "<a a0=\"v\" a1=\"v\" a2=\"v\" a3=\"v\" a4=\"v\" a5=\"v\" a6=\"v\" a7=\"v\" a8=\"v\" a9=\"v\">x</a>", 1, 1, 0),
-    T("attr-x11", "<a a0=\"v\" a1=\"v\" a2=\"v\" a3=\"v\" a4=\"v\" a5=\"v\" a6=\"v\" a7=\"v\" a8=\"v\" a9=\"v\" aa=\"v\">x</a>", 1, 1, 0),
+    T("max-depth-2", "<a><b><c>x</c></b></a>", 2, 2, 2),
+    T("spaces", "<a  b = \"c\" ><b/></a >", 2, 2, 0),
+    T("attr-x10", "<a a0=\"v\" a1=\"v\" a2=\"v\" a3=\"v\" a4=\"v\" a5=\"v\" a6=\"v\" a7=\"v\" a8=\"v\" a9=\"v\">x</a>", 1, 2, 0),
+    T("attr-x11", "<a a0=\"v\" a1=\"v\" a2=\"v\" a3=\"v\" a4=\"v\" a5=\"v\" a6=\"v\" a7=\"v\" a8=\"v\" a9=\"v\" aa=\"v\">x</a>", 1, 2, 0),
     {"depth-20", NULL, 0, 1, 1, 0},
     {"depth-21", NULL, 0, 1, 1, 0},
     {"name-256", NULL, 0, 0, 1, 0},
@@ -310,7 +310,7 @@ static void run_json(const uint8_t *bytes, size_t n) {
     if (n == 0) json_once(NULL, 0, bytes);
 }
 static const uint8_t JSON_ALPHA[18] = {'{', '}', '[', ']', '"', '\\', ':', ',', '0', '1', '-', '.', 'e', 't', 'n', 'u', 'a', ' '};
-static unsigned json_strlen_max(void) { return v_thorough() ? 5 : 4; }
+static unsigned json_strlen_max(void) { return v_thorough() ? 6 : 5; }
 static uint64_t json_str_total(void) { return bee_strings_upto(18, json_strlen_max()); }
 static void json_str_eval(uint64_t idx, void *ctx) {
     (void)ctx;
@@ -508,8 +508,10 @@ static struct tmpl CBOR_T[] = {
     T("bytes-2^32", "\x5a\xff\xff\xff\xff\x00", 2, 2, 0),
     T("text-24", "\x78\x18" "abcdefghijklmnopqrstuvwx", 1, 1, 0),
     T("ints", "\x18\xff\x19\x01\x00\x1a\x00\x01\x00\x00\x1b\x00\x00\x00\x01\x00\x00\x00\x00\x38\xff\x3b\xff\xff\xff\xff\xff\xff\xff\xff", 1, 1, 0),
-    {"nest-definite-64", NULL, 0, 1, 2, 0},
-    {"nest-indefinite-64", NULL, 0, 1, 2, 0},
+    T("nest-definite-8", "\x81\x81\x81\x81\x81\x81\x81\x81\x00", 2, 2, 0),
+    T("nest-indefinite-8", "\x9f\x9f\x9f\x9f\x9f\x9f\x9f\x9f\x00\xff\xff\xff\xff\xff\xff\xff\xff", 1, 2, 0),
+    {"nest-definite-64", NULL, 0, 1, 1, 0},
+    {"nest-indefinite-64", NULL, 0, 1, 1, 0},
     {"nest-definite-1024", NULL, 0, 0, 0, 0},
     {"nest-indefinite-1024", NULL, 0, 0, 0, 0},
     {"tag-chain-1024", NULL, 0, 0, 0, 0},
@@ -662,7 +664,7 @@ static void run_uri(const uint8_t *bytes, size_t n) {
     if (n == 0) uri_once(NULL, 0, bytes);
 }
 static const uint8_t URI_ALPHA[13] = {'a', ':', '/', '?', '@', '[', ']', '%', '2', 'G', '&', '=', '#'};
-static unsigned uri_strlen_max(void) { return v_thorough() ? 6 : 5; }
+static unsigned uri_strlen_max(void) { return v_thorough() ? 7 : 6; }
 static uint64_t uri_str_total(void) { return bee_strings_upto(13, uri_strlen_max()); }
 static void uri_str_eval(uint64_t idx, void *ctx) {
     (void)ctx;
@@ -751,7 +753,7 @@ static void run_date(const uint8_t *bytes, size_t n) {
     if (n == 0) date_once(NULL, 0, bytes);
 }
 static const uint8_t DATE_ALPHA[17] = {'0', '9', '-', ':', 'T', 'Z', 'z', '+', '.', ',', ' ', 'J', 'a', 'G', 'M', 'U', 'n'};
-static unsigned date_strlen_max(void) { return v_thorough() ? 5 : 4; }
+static unsigned date_strlen_max(void) { return v_thorough() ? 6 : 5; }
 static uint64_t date_str_total(void) { return bee_strings_upto(17, date_strlen_max()); }
 static void date_str_eval(uint64_t idx, void *ctx) {
     (void)ctx;
@@ -870,7 +872,7 @@ static void run_host(const uint8_t *bytes, size_t n) {
     if (n == 0) host_once(NULL, 0, bytes);
 }
 static const uint8_t HOST_ALPHA[11] = {'0', '9', 'a', 'f', 'g', '-', ':', '.', '%', '2', '5'};
-static unsigned host_strlen_max(void) { return v_thorough() ? 6 : 5; }
+static unsigned host_strlen_max(void) { return v_thorough() ? 7 : 6; }
 static uint64_t host_str_total(void) { return bee_strings_upto(11, host_strlen_max()); }
 static void host_str_eval(uint64_t idx, void *ctx) {
     (void)ctx;
@@ -938,7 +940,7 @@ static void run_u64(const uint8_t *bytes, size_t n) {
     if (n == 0) u64_once(NULL, 0, bytes);
 }
 static const uint8_t U64_ALPHA[16] = {'0', '1', '9', 'a', 'f', 'F', 'g', 'G', '/', ':', '@', '`', '-', ' ', 0x00, 0xff};
-static unsigned u64_strlen_max(void) { return v_thorough() ? 5 : 4; }
+static unsigned u64_strlen_max(void) { return v_thorough() ? 6 : 5; }
 static uint64_t u64_str_total(void) { return bee_strings_upto(16, u64_strlen_max()); }
 static void u64_str_eval(uint64_t idx, void *ctx) {
     (void)ctx;
@@ -1099,7 +1101,7 @@ static void hex_once(const uint8_t *p, size_t n, const uint8_t *show) {
     }
 }
 static const uint8_t HEX_ALPHA[16] = {'0', '9', 'a', 'f', 'A', 'F', 'g', 'G', '/', ':', '@', '`', ' ', 'x', 0x00, 0xff};
-static unsigned hex_strlen_max(void) { return v_thorough() ? 5 : 4; }
+static unsigned hex_strlen_max(void) { return v_thorough() ? 6 : 5; }
 static uint64_t hex_str_total(void) { return bee_strings_upto(16, hex_strlen_max()); }
 static void hex_str_eval(uint64_t idx, void *ctx) {
     (void)ctx;
